@@ -242,6 +242,7 @@ func runGatePlan(c *ev.Collector, plan *gatePlan) (key, what string, err error) 
 	if g.leader, err = startNode("gate-leader", t38.Opts{}); err != nil {
 		return "", "", err
 	}
+	g.leader.keepRunning = true
 	defer g.leader.stopAsync()
 	g.leader.mustOK("SET", "gate", "fromleader", "POINT", "2", "2")
 	if err = g.start(); err != nil {
